@@ -10,7 +10,7 @@
      lop   : G x<logger name> x<library name> x<version> x<schema> { x<key> ( <int> | x<string> ) }
      PRACE (T|M|L) | <rules> | T <op> ; <op> ... | T ... | s <tid> <flag> ...
            concurrent Get* calls on one provider under the scheduler shim; op = top for T and M, lop for L *)
-From V Require Export C19.Spec.
+From V Require Export C19.Lts.
 Local Open Scope Z_scope.
 
 Inductive case :=
@@ -22,13 +22,6 @@ Inductive case :=
 | CLg (r : rules) (d : bool) (ops : list lreq)
 (* kind: 0 TracerProvider 1 MeterProvider 2 LoggerProvider; the schedule of the case is not part of the parsed case *)
 | CPrace (kind : N) (r : rules) (d : bool) (threads : list (list lreq)).
-
-Fixpoint all_some {A} (l : list (option A)) : option (list A) :=
-  match l with
-  | [] => Some []
-  | Some x :: l' => option_map (cons x) (all_some l')
-  | None :: _ => None
-  end.
 
 Definition parse_bool (t : tok) : option bool :=
   match t with TZ 0 => Some false | TZ 1 => Some true | _ => None end.
@@ -298,11 +291,44 @@ Definition parse_flag2 (name : string) (l : list tok) : option (bool * option bo
   end.
 Definition print_obool (o : option bool) : tok := match o with Some b => tbool b | None => TZ 2 end.
 
+(* ---------------------------------------------------------------- "<case> || <event trace>" (TRACE_MODE of the runner) *)
+Fixpoint split_trace (l : list tok) : list tok * option (list tok) :=
+  match l with
+  | [] => ([], None)
+  | t :: l' => if is_tag "||" t then ([], Some l')
+               else let '(a, b) := split_trace l' in (t :: a, b)
+  end.
+(* events "<thread> C | L | U | R <instance>" separated by ';' *)
+Definition parse_pev (l : list tok) : option (nat * pev) :=
+  match l with
+  | [TZ t; e] => if is_tag "C" e then Some (Z.to_nat t, PCall) else if is_tag "L" e then Some (Z.to_nat t, PLock)
+                 else if is_tag "U" e then Some (Z.to_nat t, PUnlock) else None
+  | [TZ t; e; TZ c] => if is_tag "R" e then Some (Z.to_nat t, PRet (Z.to_nat c)) else None
+  | _ => None
+  end.
+Definition parse_ptrace (l : list tok) : option (list (nat * pev)) := all_some (map parse_pev (members l)).
+(* the threads of the case, and one more that repeats every request after the others have finished *)
+Definition prace_scripts (threads : list (list lreq)) : list (list lreq) := threads ++ [concat threads].
+Definition reject (why : string) : list tok := [tag "REJECT"; tag why].
+(* replay the implementation's trace through the acceptor and print the observation the final state implies *)
+Definition run_prace_trace (kind : N) (r : rules) (d : bool) (threads : list (list lreq)) (tr : list tok) : list tok :=
+  match parse_ptrace tr with
+  | None => reject "unparsable_trace"
+  | Some evs =>
+      match accept_all r d (pst0 kind (prace_scripts threads)) evs 0 with
+      | inr n => [tag "REJECT"; tag "event"; tnat n]
+      | inl st => if complete st
+                  then match psummary st with Some hs => flat_map print_hobs hs | None => reject "no_such_instance" end
+                  else reject "incomplete_trace"
+      end
+  end.
+
 (* ---------------------------------------------------------------- entry points *)
 Definition pred_model (pattern_kind : bool) (raw s : bytes) : option bool :=
   if pattern_kind then option_map (fun n => name_sel_match n s) (name_sel_of raw) else Some (exact_match raw s).
 
-Definition run_model (l : list tok) : list tok :=
+Definition run_model (l0 : list tok) : list tok :=
+  let '(l, tr) := split_trace l0 in
   match parse_case l with
   | Some (CNameC s) => [tag "N"; tbool (validate_name s); print_obool (validate_name_nr s)]
   | Some (CUnitC s) => [tag "U"; tbool (validate_unit s); tbool (validate_unit_nr s)]
@@ -310,12 +336,16 @@ Definition run_model (l : list tok) : list tok :=
   | Some (CMet r d vs keys ops) => print_met (run_met r d vs keys ops)
   | Some (CTr r d ops) => print_tr (run_tr r d ops)
   | Some (CLg r d ops) => print_lg (run_lg r d ops)
-  | Some (CPrace kind r d threads) => flat_map print_hobs (prace_model kind r d threads)
+  | Some (CPrace kind r d threads) =>
+      match tr with
+      | Some t => run_prace_trace kind r d threads t
+      | None => flat_map print_hobs (prace_model kind r d threads)
+      end
   | None => bad_case
   end.
 
-Definition run_spec (l obs : list tok) : list tok :=
-  match parse_case l with
+Definition run_spec (l0 obs : list tok) : list tok :=
+  match parse_case (fst (split_trace l0)) with
   | Some (CNameC s) => match parse_flag2 "N" obs with Some (b, n) => spec_name s b n | None => fail "obs:unparsable" end
   | Some (CUnitC s) => match parse_flag2 "U" obs with Some (b, Some n) => spec_unit s b n | _ => fail "obs:unparsable" end
   | Some (CPred k raw s) => match parse_flag "P" obs with Some b => spec_pred k raw s b | None => fail "obs:unparsable" end
@@ -333,8 +363,8 @@ Definition run_spec (l obs : list tok) : list tok :=
 (* branch tag of the model on this case, for coverage accounting *)
 Definition count_applying (vs : list view) (si : scope_id * instr) : nat :=
   length (filter (fun v => view_applies v (fst si) (snd si)) vs).
-Definition run_tag (l : list tok) : list tok :=
-  match parse_case l with
+Definition run_tag (l0 : list tok) : list tok :=
+  match parse_case (fst (split_trace l0)) with
   | Some (CNameC s) =>
       [tag (match s with
             | [] => "name_empty"
